@@ -14,14 +14,18 @@
                  if hn <> NULL: store_rel(head[index], hn); x := hn->data;
                                 hd->data := x; return hd  [harness: read hd->data]
                return NULL
-   The step structure of the per-queue part is that of Spsc.v. *)
+   The step structure of the per-queue part is that of Spsc.v.
+   Node recycling as in Spsc.v: every node returned by trypop goes onto one
+   free stack (plain harness memory); ORecyc q v = take the most recently freed
+   node (one explicit scheduling point, then the decision) and push it as
+   producer q with data v; no-op returning 0 if no node is free. *)
 From Coq Require Import List ZArith Lia Bool Arith.
 From LF Require Import Conc.
 Import ListNotations.
 
-Inductive op := OPush (q n v : nat) | OPop.
+Inductive op := OPush (q n v : nat) | OPop | ORecyc (q v : nat).
 
-Inductive pcT := PData | PNull | PLoadTail | PStoreTail | PLink
+Inductive pcT := PTake | PData | PNull | PLoadTail | PStoreTail | PLink
                | CRead1 | CRead2 | CWrite
                | QHead | QNext | QSetHead | QRead | QWrite | QUse | Fin.
 
@@ -32,7 +36,7 @@ Record tst := { pc : pcT; qi : nat; node : nat; arg : nat; prev : nat;
                 prog : list op; opi : nat }.
 
 Record st := { counter : nat; np : nat; heads : nat -> nat; tails : nat -> nat;
-               nxt : nat -> nat; dat : nat -> nat;
+               nxt : nat -> nat; dat : nat -> nat; freed : list nat;
                thr : nat -> tst; nthr : nat }.
 
 Definition with_pc (T : tst) (p : pcT) : tst :=
@@ -51,10 +55,13 @@ Definition next_op (npr : nat) (T : tst) : tst :=
   | OPop :: r =>
       {| pc := CRead1; qi := qi T; node := node T; arg := arg T; prev := prev T; hd := hd T; hn := hn T;
          rdv := rdv T; it := 0; cv := cv T; prog := r; opi := S (opi T) |}
+  | ORecyc q v :: r =>
+      {| pc := PTake; qi := q mod npr; node := node T; arg := v; prev := prev T; hd := hd T; hn := hn T;
+         rdv := rdv T; it := it T; cv := cv T; prog := r; opi := S (opi T) |}
   end.
 
 Definition set_thr (s : st) (t : nat) (x : tst) : st :=
-  {| counter := counter s; np := np s; heads := heads s; tails := tails s; nxt := nxt s; dat := dat s;
+  {| counter := counter s; np := np s; heads := heads s; tails := tails s; nxt := nxt s; dat := dat s; freed := freed s;
      thr := upd (thr s) t x; nthr := nthr s |}.
 
 Local Open Scope Z_scope.
@@ -70,14 +77,26 @@ Definition step (s : st) (t : nat) : st * list Z :=
   let T := thr s t in
   match pc T with
   | Fin => (s, [])
+  | PTake =>
+      match freed s with
+      | [] => (set_thr s t (next_op (np s) T), ev t 0 99 0 ++ ret t T 0)
+      | n :: fr =>
+          ({| counter := counter s; np := np s; heads := heads s; tails := tails s;
+              nxt := nxt s; dat := dat s; freed := fr;
+              thr := upd (thr s) t {| pc := PData; qi := qi T; node := n; arg := arg T; prev := prev T;
+                                      hd := hd T; hn := hn T; rdv := rdv T; it := it T; cv := cv T;
+                                      prog := prog T; opi := opi T |};
+              nthr := nthr s |},
+           ev t 0 99 0)
+      end
   | PData =>
       ({| counter := counter s; np := np s; heads := heads s; tails := tails s;
-          nxt := nxt s; dat := upd (dat s) (node T) (arg T);
+          nxt := nxt s; dat := upd (dat s) (node T) (arg T);  freed := freed s;
           thr := upd (thr s) t (with_pc T PNull); nthr := nthr s |},
        ev t (dloc (node T)) 19 (arg T))
   | PNull =>
       ({| counter := counter s; np := np s; heads := heads s; tails := tails s;
-          nxt := upd (nxt s) (node T) 0; dat := dat s;
+          nxt := upd (nxt s) (node T) 0; dat := dat s;  freed := freed s;
           thr := upd (thr s) t (with_pc T PLoadTail); nthr := nthr s |},
        ev t (nloc (node T)) 33 0)
   | PLoadTail =>
@@ -87,12 +106,12 @@ Definition step (s : st) (t : nat) : st * list Z :=
        ev t (tloc (qi T)) 22 (tails s (qi T)))
   | PStoreTail =>
       ({| counter := counter s; np := np s; heads := heads s; tails := upd (tails s) (qi T) (node T);
-          nxt := nxt s; dat := dat s;
+          nxt := nxt s; dat := dat s;  freed := freed s;
           thr := upd (thr s) t (with_pc T PLink); nthr := nthr s |},
        ev t (tloc (qi T)) 33 (node T))
   | PLink =>
       ({| counter := counter s; np := np s; heads := heads s; tails := tails s;
-          nxt := upd (nxt s) (prev T) (node T); dat := dat s;
+          nxt := upd (nxt s) (prev T) (node T); dat := dat s;  freed := freed s;
           thr := upd (thr s) t (next_op (np s) T); nthr := nthr s |},
        ev t (nloc (prev T)) 33 (node T) ++ ret t T (node T))
   | CRead1 =>
@@ -106,7 +125,7 @@ Definition step (s : st) (t : nat) : st * list Z :=
                       prog := prog T; opi := opi T |},
        ev t 0 9 (counter s))
   | CWrite =>
-      ({| counter := S (cv T); np := np s; heads := heads s; tails := tails s; nxt := nxt s; dat := dat s;
+      ({| counter := S (cv T); np := np s; heads := heads s; tails := tails s; nxt := nxt s; dat := dat s;  freed := freed s;
           thr := upd (thr s) t (with_pc T QHead); nthr := nthr s |},
        ev t 0 19 (S (cv T)))
   | QHead =>
@@ -130,7 +149,7 @@ Definition step (s : st) (t : nat) : st * list Z :=
       end
   | QSetHead =>
       ({| counter := counter s; np := np s; heads := upd (heads s) (qi T) (hn T); tails := tails s;
-          nxt := nxt s; dat := dat s;
+          nxt := nxt s; dat := dat s;  freed := freed s;
           thr := upd (thr s) t (with_pc T QRead); nthr := nthr s |},
        ev t (hloc (qi T)) 33 (hn T))
   | QRead =>
@@ -140,11 +159,13 @@ Definition step (s : st) (t : nat) : st * list Z :=
        ev t (dloc (hn T)) 9 (dat s (hn T)))
   | QWrite =>
       ({| counter := counter s; np := np s; heads := heads s; tails := tails s;
-          nxt := nxt s; dat := upd (dat s) (hd T) (rdv T);
+          nxt := nxt s; dat := upd (dat s) (hd T) (rdv T);  freed := freed s;
           thr := upd (thr s) t (with_pc T QUse); nthr := nthr s |},
        ev t (dloc (hd T)) 19 (rdv T))
   | QUse =>
-      (set_thr s t (next_op (np s) T),
+      ({| counter := counter s; np := np s; heads := heads s; tails := tails s;
+          nxt := nxt s; dat := dat s; freed := hd T :: freed s;
+          thr := upd (thr s) t (next_op (np s) T); nthr := nthr s |},
        ev t (dloc (hd T)) 9 (dat s (hd T)) ++ ret t T (hd T))
   end.
 
@@ -158,7 +179,7 @@ Definition idle_thread (npr : nat) (p : list op) : tst :=
 (* mpscr_fifo_create: counter = 0; queue q has head = tail = zeroed stub q+1 *)
 Definition init (npr : nat) (progs : list (list op)) : st :=
   {| counter := 0; np := npr; heads := fun q => S q; tails := fun q => S q;
-     nxt := fun _ => 0; dat := fun _ => 0;
+     nxt := fun _ => 0; dat := fun _ => 0; freed := [];
      thr := fun t => idle_thread npr (nth t progs []); nthr := length progs |}.
 
 Definition M : machine :=
@@ -168,6 +189,7 @@ Definition M : machine :=
 Definition dec_op (p : Z * Z) : op :=
   match fst p with
   | 1%Z => OPush (Z.to_nat (snd p / 10000000)) (Z.to_nat ((snd p / 1000) mod 10000)) (Z.to_nat (snd p mod 1000))
+  | 3%Z => ORecyc (Z.to_nat (snd p / 10000000)) (Z.to_nat (snd p mod 1000))
   | _ => OPop
   end.
 
